@@ -46,6 +46,11 @@ THome(u) ==
      ELSE IF u.second.first THEN h2 ELSE h1
 RHome(u) == Pk!PlacePath(u.rplace) \o <<"refmod">>
 
+(* reference shapes outside U3 that are replayed in one fixed package (harness MISC): the root package re-exports a class whose own       *)
+(* signature needs an import; a module uses a class of a module whose name extends its own (model / model_utils); a module uses a class  *)
+(* of another library while the package has a class of the same name (decimal.Decimal / pkg.bigdecimal.Decimal); a nested class used     *)
+(* from another module.  JudgeRun judges them like every other file: referenced names are declared or imported, imports resolve.         *)
+MiscShapes == {"rootrx", "prefixsib", "samesuffix", "nested"}
 VARIABLES sc, files, pc
 vars == <<sc, files, pc>>
 Init == sc \in { u \in Universe(Tier) : Legal(u) } /\ files = {} /\ pc = "emit-target"
